@@ -86,3 +86,67 @@ def replay_indexed_commit(inputs, obl):
     if problems:
         return dict(confirmed=True, detail='; '.join(problems[:2]))
     return dict(confirmed=False, detail='indexed insert histories agree with the one-row-per-key model')
+
+
+def replay_db_view(inputs, obl):
+    """query / insert / other read / query histories through the real interpreter: the SQL must see exactly the rows inserted so far,
+    whichever read path flushed the insert buffer, before and after adding a column, creating and dropping an index"""
+    import itertools
+    import numpy as np
+    from klongpy import KlongInterpreter
+
+    def fresh():
+        k = KlongInterpreter()
+        k('.py("klongpy.db")')
+        k('T::.table([["a" [1 2 3]] ["b" [10 20 30]]])')
+        k('db::.db(:{},"T",,T)')
+        return k
+
+    def q(k, sql='select a,b from T'):
+        r = np.asarray(k(f'db("{sql}")'))
+        return r.reshape(-1, 2).tolist() if r.size else []
+    reads = {'none': None, '#T': '#T', 'T?"a"': 'T?"a"', 'query': 'db("select count(*) from T")', '.schema': '.schema(T)'}
+    inserts = {'one row': ('.insert(T;[4 40])', [[4, 40]]), 'a batch': ('.insert(T;[[4 40] [5 50]])', [[4, 40], [5, 50]])}
+    problems = []
+    for (rn, rd), (iname, (ins, new)), first in itertools.product(reads.items(), inserts.items(), (True, False)):
+        k = fresh()
+        want = [[1, 10], [2, 20], [3, 30]]
+        try:
+            if first:
+                q(k)
+            k(ins)
+            want = want + new
+            if rd:
+                k(rd)
+            got = q(k)
+            if got != want:
+                problems.append(f"{'query; ' if first else ''}insert {iname}; {rn}; query: the SQL sees {got}, the table holds {want}")
+            k('.insert(T;[6 60])')
+            want = want + [[6, 60]]
+            if rd:
+                k(rd)
+            got = q(k)
+            if got != want:
+                problems.append(f"{'query; ' if first else ''}insert {iname}; {rn}; query; insert; {rn}; query: the SQL sees {got}, the table holds {want}")
+        except Exception as e:
+            problems.append(f"{'query; ' if first else ''}insert {iname}; {rn}; query raised {e!r}")
+    # index created / dropped between queries
+    try:
+        k = fresh()
+        q(k)
+        k('.index(T;["a"])')
+        k('.insert(T;[2 21])')
+        r1 = q(k, 'select a,b from T order by a')
+        k('.rindex(T)')
+        k('.insert(T;[2 22])')
+        k('#T')
+        r2 = q(k)
+        if r1 != [[1, 10], [2, 21], [3, 30]]:
+            problems.append(f"query; index; re-insert key 2; query: the SQL sees {r1}")
+        if r2 != [[1, 10], [2, 21], [3, 30], [2, 22]]:
+            problems.append(f"...; drop index; insert [2 22]; #T; query: the SQL sees {r2}")
+    except Exception as e:
+        problems.append(f"index history raised {e!r}")
+    if problems:
+        return dict(confirmed=True, detail='; '.join(problems[:3]) + (f" (+{len(problems) - 3} more)" if len(problems) > 3 else ''))
+    return dict(confirmed=False, detail='every query saw exactly the rows inserted so far (40 histories + index history)')
